@@ -19,7 +19,7 @@ ASSUMPTIONS = ["each Parameter constructs on its own (its own declared/default `
                "lo <= hi for declared bounds"]
 ATTRS = ['default', 'bounds', 'allow_None', 'instantiate', 'constant', 'doc', 'precedence', 'label']
 TYPE_DEFAULTS = dict(default=0, bounds=None, allow_None=False, instantiate=False, constant=False, doc=None, precedence=None, label=None)
-SHAPES = ['A>B', 'A>M>B', 'diamond A>(L,R)>J']
+SHAPES = ['A>B', 'A>M>B', 'diamond A>(L,R)>J', 'B(G, A) with G declaring a more general type']
 TCS = ['same type', 'Number>Integer', 'Parameter(default=None)>Integer']
 ROUTES = ['class statement', 'add_parameter']
 
@@ -48,13 +48,15 @@ def _kw(flags, d, lo, hi, n, i, c, p, tag, nattr):
     return k
 
 
-def _valid(d, b):
+def _valid(d, b, inc=(True, True)):
     if d is None or b is None:
         return True
-    return (b[0] is None or b[0] <= d) and (b[1] is None or d <= b[1])
+    lo_ok = b[0] is None or (b[0] <= d if inc[0] else b[0] < d)
+    hi_ok = b[1] is None or (d <= b[1] if inc[1] else d < b[1])
+    return lo_ok and hi_ok
 
 
-def prog(shape: int, tc: int, route: int, nattr: int,
+def prog(shape: int, tc: int, route: int, nattr: int, s2inc: bool, inc_lo2: bool, inc_hi2: bool,
          s1d: bool, d1: int, s1b: bool, lo1: int, hi1: int, s1n: bool, n1: bool, s1i: bool, i1: bool, s1c: bool, c1: bool,
          s1doc: bool, s1p: bool, p1: int, s1l: bool,
          s2d: bool, d2: int, s2b: bool, lo2: int, hi2: int, s2n: bool, n2: bool, s2i: bool, i2: bool, s2c: bool, c2: bool,
@@ -62,6 +64,8 @@ def prog(shape: int, tc: int, route: int, nattr: int,
          sld: bool, dl: int, slb: bool, lol: int, hil: int) -> None:
     k1 = _kw((s1d, s1b, s1n, s1i, s1c, s1doc, s1p, s1l), d1, lo1, hi1, n1, i1, c1, p1, '1', nattr)
     k2 = _kw((s2d, s2b, s2n, s2i, s2c, s2doc, s2p, s2l), d2, lo2, hi2, n2, i2, c2, p2, '2', nattr)
+    if pickbool(s2inc):
+        k2['inclusive_bounds'] = (pickbool(inc_lo2), pickbool(inc_hi2))
     kl = {}
     if shape == 2:
         if pickbool(sld):
@@ -88,7 +92,13 @@ def prog(shape: int, tc: int, route: int, nattr: int,
         okA = False
     check('C11.base_creates', okA, {'k1': repr(k1)})
     levels = [k2]            # nearest first
-    if shape == 0:
+    if shape == 3:
+        class G(param.Parameterized):
+            x = param.Parameter(default=None) if tc == 2 else param.Number(default=1)
+        Base = (G, A)
+        # G holds a concrete value for every attribute (its own declaration or its type's defaults): A is never consulted
+        levels.append(dict(TYPE_DEFAULTS, default=None if tc == 2 else 1))
+    elif shape == 0:
         Base = (A,)
     elif shape == 1:
         class M(A):
@@ -105,17 +115,18 @@ def prog(shape: int, tc: int, route: int, nattr: int,
             pass
         Base = (R, L)
         levels.append(kl)
-    levels.append(k1)
+    if shape != 3:
+        levels.append(k1)
     merged = {}
     for a in ATTRS:
         merged[a] = TYPE_DEFAULTS[a]
-        if a == 'default':
+        if a == 'default' and shape != 3:
             merged[a] = [0, 0.0, None][tc]      # the value held by the root-most declaring class is its own type's default
         for lv in levels:
             if a in lv:
                 merged[a] = lv[a]
                 break
-    exp_inst = any(lv.get('instantiate', False) is True for lv in levels)
+    exp_inst = any(lv.get('instantiate', False) is True for lv in levels + [k1])
     info = {'shape': SHAPES[shape], 'type_change': TCS[tc], 'route': ROUTES[route], 'k1': repr(k1), 'k2': repr(k2), 'kl': repr(kl)}
     try:
         if route == 0:
@@ -132,11 +143,11 @@ def prog(shape: int, tc: int, route: int, nattr: int,
     own_allow_none = k2.get('allow_None', False) or ('default' in k2 and k2['default'] is None)
     if d is None:
         # a merged default of None is re-checked only if the Parameter type changed along the way
-        bad = (tc != 0) and not own_allow_none
+        bad = (tc != 0 or shape == 3) and not own_allow_none
         check('C11.none_default_on_type_change', okB == (not bad), dict(info, created=okB))
     else:
-        isint = isinstance(d, int)
-        bad = (not isint) or not _valid(d, merged['bounds'])
+        isint = isinstance(d, int) and not isinstance(d, float)
+        bad = (not isint) or not _valid(d, merged['bounds'], k2.get('inclusive_bounds', (True, True)))
         check('C11.creation_iff_invalid', okB == (not bad), dict(info, created=okB, merged=repr(merged)))
     if okB:
         px = B.param.x
@@ -154,14 +165,18 @@ def shards(tier):
     out = []
     q = tier == 'quick'
     nattr = 4 if q else 8
-    for shape in range(3):
+    for shape in range(4):
         for tc in range(3):
             for route in range(2):
                 if q and route == 1 and shape != 0:
                     continue
                 for s2d in (False, True):
                     for s2b in (False, True):
+                        if shape == 3 and (tc == 1 or route == 1):
+                            continue
                         c = dict(shape=shape, tc=tc, route=route, nattr=nattr, s2d=s2d, s2b=s2b)
+                        if q and not (shape == 0 and tc == 0):
+                            c.update(s2inc=False, inc_lo2=True, inc_hi2=True)
                         if nattr <= 4:
                             c.update(s1n=False, n1=False, s1c=False, c1=False, s1p=False, p1=0, s1l=False,
                                      s2n=False, n2=False, s2c=False, c2=False, s2p=False, p2=0, s2l=False)
